@@ -463,6 +463,28 @@ pub fn c05_frontends(ctx: &mut Ctx, acc: &mut Acc) {
                     }
                 }
             }
+            // the same ledger spread over several input files: cut after every line, the earlier file ending with or
+            // without a final newline, with or without a closing comment line that has no newline of its own
+            let lines: Vec<&str> = text.lines().collect();
+            for cut in 1..lines.len() {
+                for (tail_label, tail) in [("newline", "\n"), ("no-final-newline", ""), ("comment-without-newline", "\n# end of export")] {
+                    sc.write("p1.cgt", format!("{}{}", lines[..cut].join("\n"), tail).as_bytes());
+                    sc.write("p2.cgt", format!("{}\n", lines[cut..].join("\n")).as_bytes());
+                    let args = ["report", "p1.cgt", "p2.cgt", "--format", "json"];
+                    let o = run_tool(&args, &sc, T);
+                    acc.states += 1;
+                    acc.validated += 1;
+                    acc.bump("frontend:cli-multi-file-runs");
+                    let cx = json!({"profile": "front-ends", "args": args, "cut_after_line": cut, "first_file_ends_with": tail_label, "exit": o.code, "stderr": o.err().chars().take(200).collect::<String>()});
+                    if *covered && !o.ok() {
+                        push(&mut acc, "covered-ledger-refused", format!("cgt-tool report p1.cgt p2.cgt fails on a covered ledger cut after line {cut} (first file ends with {tail_label})"), cx);
+                    } else if !*covered && (o.ok() || !o.stdout.is_empty()) {
+                        push(&mut acc, "uncovered-ledger-accepted", format!("cgt-tool report p1.cgt p2.cgt produces a report for an uncovered ledger cut after line {cut} (first file ends with {tail_label})"), cx);
+                    } else if !*covered && !o.err().contains(date) {
+                        push(&mut acc, "error-does-not-name-sale", format!("the error does not name the date {date}"), cx);
+                    }
+                }
+            }
             let mut m = Mcp::start(&sc);
             m.send_raw(&tool_call(&json!(1), "calculate_report", json!({"transactions": text})));
             m.send_raw(&tool_call(&json!(2), "calculate_report", json!({"transactions": text, "year": 2023})));
